@@ -18,7 +18,10 @@ RULE = (
     "tasks, optional store/to_zarr sinks to fresh paths) on a tracing in-memory store. A clean run counts T tasks and W chunk writes; "
     "then EVERY crash point is executed (evenly sampled down to 48 per program when T+W is larger): crash before task k (k=0..T) via "
     "the schedule-owning executor, and crash inside the w-th chunk write (w=1..W) via the store, so a task writing several chunks is cut "
-    "in the middle. After each crash compute(resume=True) runs on a drawn executor (schedule-owning, single-threaded, threads). "
+    "in the middle. The crashing run executes each operation's tasks in plan order or in a drawn permutation (so the chunks present "
+    "after the crash are an arbitrary subset, not only a prefix). After each crash compute(resume=True) runs on a drawn executor "
+    "(schedule-owning, single-threaded, threads); in a third of the programs the resumed run is itself crashed (before its j-th task / "
+    "inside its j-th chunk write, j <= 3), held to rules (c) and (d), and resumed a second time. "
     "Oracle: (a) the resumed run either refuses before any task (plans containing arrays whose storage cannot report completeness) or "
     "completes with the clean run's values; (b) an operation skipped on resume had every chunk of every output present after the crash "
     "(from the store listing and stored grid metadata, not from nchunks_initialized); (c) operations whose outputs were complete are "
@@ -47,6 +50,11 @@ def case_strategy(opts=None, max_ops=4):
             "resume_executor": draw(st.sampled_from(["schedule", "schedule", "single-threaded", "threads"])),
             "sinks": draw(S.sinks_strategy(prog, classes=("fresh", "group"), max_sinks=2, allow_repeat=False)) if draw(st.integers(0, 3)) == 0 else [],
             "points": None,
+            # the crashing run executes the tasks of each operation in a drawn order (None: plan order), so the set of chunks that
+            # exist after the crash is an arbitrary subset of an operation's chunks, not only a prefix
+            "crash_perm": draw(st.sampled_from([None, None, 1, 2, 3])) if not (opts or {}).get("no_perm") else None,
+            # the resumed run may crash again (before its j-th task / inside its j-th chunk write) and is resumed a second time
+            "second": draw(st.sampled_from([None, None, None, ["task", 0], ["task", 1], ["task", 2], ["write", 1], ["write", 2], ["write", 3]])),
         }
 
     return cases()
@@ -150,7 +158,7 @@ def check_case(case, acc=None) -> Outcome:
             ts.state.clear()
             ts.state.nsets = 0
             ts.state.crash_at_set = None
-            sched = H.Schedule()
+            sched = H.Schedule(perm_seed=case.get("crash_perm"))
             if kind_ == "task":
                 sched.crash_before_task = k
             else:
@@ -186,6 +194,66 @@ def check_case(case, acc=None) -> Outcome:
                     acc.samples.append({"program": prog, "optimize": case["optimize"], "resume_executor": case["resume_executor"], "crash_point": [kind_, k],
                                         "T_tasks": T, "W_chunk_writes": W, "partially_written_arrays": sorted(partial), "complete_ops": sorted(ops_complete)})
             ts.state.clear()
+            where = f"crash {kind_}#{k} of T={T},W={W}"
+            # ---- optionally: the resumed run crashes too; everything below is then judged against the state after the SECOND crash
+            if case.get("second"):
+                kind2, j = case["second"]
+                sched2 = H.Schedule()
+                ts.state.nsets = 0
+                if kind2 == "task":
+                    sched2.crash_before_task = j
+                else:
+                    ts.state.crash_at_set = j
+                ex15 = H.ScheduleExecutor(sched2)
+                cb15 = H.RecordingCallback()
+                crashed2 = False
+                try:
+                    cubed.compute(*outs, executor=ex15, callbacks=[cb15], resume=True, **kw)
+                except H.Crash:
+                    crashed2 = True
+                except Exception as e:
+                    if "crash at chunk set" in str(e) or isinstance(getattr(e, "__cause__", None), H.Crash):
+                        crashed2 = True
+                    elif not any(ev[0] == "task_end" for ev in cb15.events) and (structured or isinstance(e, NotImplementedError)):
+                        labels.add(f"resume-refused:{type(e).__name__}")
+                        ts.state.crash_at_set = None
+                        continue
+                    else:
+                        ts.state.crash_at_set = None
+                        fails.append(Failure(f"resume-failed:{type(e).__name__}", f"{where}, first resume (to be crashed at {kind2}#{j}): {e!r}"[:300]))
+                        break
+                ts.state.crash_at_set = None
+                if crashed2:
+                    labels.add("second-crash")
+                    # the first resumed run is held to the same rules: it must not have deleted or changed what existed
+                    dels = [r for r in ts.state.log if r[1] in ("delete", "delete_dir")]
+                    if dels:
+                        fails.append(Failure("resume-deleted", f"{where}, first resume: {dels[0][1]} {dels[0][2]}"))
+                        break
+                    ran15 = {ev[1] for ev in cb15.events if ev[0] == "operation_start"}
+                    bad = [n for n in sorted(ran15) if n in ops_complete and n not in zero_d and n != "create-arrays"]
+                    if bad:
+                        fails.append(Failure("recomputed-complete-op", f"{where}, first resume: {bad[0]} was re-run although all its outputs were complete"))
+                        break
+                    lost = [kk for kk in snap if H.is_chunk_key(kk) and kk not in inner]
+                    if lost:
+                        fails.append(Failure("chunk-lost-on-resume", f"{where}, first resume: {lost[0]} is gone"))
+                        break
+                    snap = {kk: v.to_bytes() for kk, v in inner.items()}
+                    complete, partial, arrays_meta = _complete_paths(inner)
+                    ops_complete = {n for n, ps in produces.items() if ps and all(p in complete for p in ps)}
+                    where += f" then crash {kind2}#{j} of the resumed run"
+                    ts.state.clear()
+                else:
+                    # the resumed run finished before its crash point: nothing left to resume; judge it like a plain resumed run below
+                    # by re-creating the state after the first crash
+                    labels.add("second-crash-point-not-reached")
+                    inner.clear()
+                    from zarr.core.buffer import default_buffer_prototype
+
+                    for kk, v in snap.items():
+                        inner[kk] = default_buffer_prototype().buffer.from_bytes(v)
+                    ts.state.clear()
             # ---- resumed run
             rn = case["resume_executor"]
             if rn == "schedule":
@@ -193,7 +261,6 @@ def check_case(case, acc=None) -> Outcome:
             else:
                 ex2 = H.RecordingExecutor(H.make_executor(rn, max_workers=2))
             cb = H.RecordingCallback()
-            where = f"crash {kind_}#{k} of T={T},W={W}"
             try:
                 res = [np.asarray(r) for r in cubed.compute(*outs, executor=ex2, callbacks=[cb], resume=True, **kw)]
             except Exception as e:
